@@ -36,7 +36,7 @@ BUDGET = {
 @st.composite
 def _case(draw, tier):
     big = tier == "thorough"
-    desc = draw(gen.wellformed(wf_wds=(None, None, "wdir"), max_targets=9 if big else 6, max_files=12 if big else 8, ticks=4, min_targets=2,
+    desc = draw(gen.wellformed(wf_wds=(None, None, "wdir"), wds=(None, None, None, "w1"), max_targets=9 if big else 6, max_files=12 if big else 8, ticks=4, min_targets=2,
                                shapes=(0, 2, 4, 5, 7), spellings=(0, 1, 2)))
     names = [t["name"] for t in desc["targets"]]
     vec = {n: draw(st.sampled_from(hist.VEC_STATES)) for n in names}
